@@ -193,13 +193,33 @@ pub fn run() {
                 }
             }));
         }
-        for (i, p) in plan.iter().enumerate() {
-            for q in 0..p.1 {
-                let _ = txs[i].send((i as u32, p.0 + q));
+        // park=ms: the later messages are only sent - and the senders dropped - while the router thread sits in a callback for that
+        // long, so that its next batch holds messages of some routes FOLLOWED BY the bare closures of others
+        let park: u64 = a.get("park").map(|s| s.parse().unwrap()).unwrap_or(0);
+        if park == 0 {
+            for (i, p) in plan.iter().enumerate() {
+                for q in 0..p.1 {
+                    let _ = txs[i].send((i as u32, p.0 + q));
+                }
             }
         }
         for h in handles {
             let _ = h.join();
+        }
+        let mut park_keep = None;
+        if park > 0 {
+            // let the router finish what is queued, then park it
+            std::thread::sleep(std::time::Duration::from_millis(30));
+            let (gtx, grx) = ipc::channel::<u32>().unwrap();
+            proxy.add_route(grx.to_opaque(), Box::new(move |_m| std::thread::sleep(std::time::Duration::from_millis(park))));
+            let _ = gtx.send(1);
+            std::thread::sleep(std::time::Duration::from_millis(15));
+            for (i, p) in plan.iter().enumerate() {
+                for q in 0..p.1 {
+                    let _ = txs[i].send((i as u32, p.0 + q));
+                }
+            }
+            park_keep = Some(gtx);
         }
         // senders that are to be dropped go now; the others stay for the post-stop probe
         let mut kept: Vec<(usize, IpcSender<(u32, u32)>)> = Vec::new();
@@ -339,6 +359,11 @@ pub fn run() {
                 if busy > 0 {
                     // the shutdown request is pending (its caller waits for the acknowledgement): routes offered from several threads
                     std::thread::sleep(std::time::Duration::from_millis(busy / 4 + 5));
+                    // ... and traffic on the routes that are still connected: it reaches the router together with (behind) the
+                    // shutdown wake-up, in one batch
+                    for (i, tx) in kept.iter() {
+                        let _ = tx.send((*i as u32, 7777));
+                    }
                     let mut ths = Vec::new();
                     for j in 0..4u32 {
                         let (p, lg) = (proxy.clone(), log.clone());
@@ -521,5 +546,6 @@ pub fn run() {
         );
         drop(kept);
         drop(wave2_keep);
+        drop(park_keep);
     }
 }
